@@ -8,7 +8,7 @@ g = lambda k: int(re.search(k + r" exit=(\d+)", v).group(1))
 chk = open(os.path.join(d, "check.log")).read().strip().splitlines()[-1]
 meta = {
     "property": ID[:3],
-    "round": 2 if len(ID) > 3 else 1,
+    "round": {"": 1, "b": 2, "c": 3, "d": 6}.get(ID[3:], 2),
     "origin": "independent sub-agent given only the property text and a scratch worktree of /repo (no access to /verif)",
     "needs_to_manifest": needs,
     "verified": {
